@@ -87,3 +87,200 @@ Definition run (g : its) : tok :=
 
 (** the same on the ITS of a reactant/product pair *)
 Definition run_pair (G H : mgraph) : tok := run (its_construct G H).
+
+(** * Round-2 extensions: the remaining branches of get_rc, the RadiusExpand helpers, ITSGraph options.
+    Nothing above this line changed; [get_rc] etc. are imported by C03/C04/C09/C10.
+    proof/C02_Opts.v proves that [get_rc_x] with the default options is [get_rc] (C02_rcx_default). *)
+
+(** ** get_rc(ITS, element_key, disconnected, keep_mtg)
+    Nodes whose attributes may be absent (element_key selects which labels the centre keeps; an ITS node may lack
+    typesGH: _ensure_node_hh then writes the fallback (("H",False,0,0,[]),("*",False,0,0,[]))).
+    Edges carry 'order', 'standard_order' and the optional attribute 'is_mtg' (absent / False / True). *)
+Record xnode := XN {
+  x_el : option N; x_ch : option Z; x_amap : option Z;
+  x_arom : option bool; x_hc : option Z; x_nb : option (list N);
+  x_gh : option (nattr * nattr) }.
+Definition xedge := (iedge * option bool)%type.
+Definition xits := lgraph xnode xedge.
+
+(** element_key as the set of the seven keys an ITS node can carry (other strings select nothing;
+    the order of the keys only decides the order of the attribute dict, which no observable shows) *)
+Record keysel := KS { k_el : bool; k_ch : bool; k_amap : bool; k_gh : bool; k_arom : bool; k_hc : bool; k_nb : bool }.
+(** the default ["element", "charge", "typesGH", "atom_map"] *)
+Definition K_default : keysel := KS true true true true false false false.
+
+Definition pick {T} (b : bool) (o : option T) : option T := if b then o else None.
+(** {k: node_data[k] for k in element_key if k in node_data}   (_ensure_node, _carry_node_attrs) *)
+Definition sel_attr (K : keysel) (a : xnode) : xnode :=
+  XN (pick (k_el K) (x_el a)) (pick (k_ch K) (x_ch a)) (pick (k_amap K) (x_amap a))
+     (pick (k_arom K) (x_arom a)) (pick (k_hc K) (x_hc a)) (pick (k_nb K) (x_nb a)) (pick (k_gh K) (x_gh a)).
+(** _ensure_node_hh: typesGH (or its fallback) is copied whether or not element_key selects it *)
+Definition HH_FALLBACK : nattr * nattr := (NA EL_H false 0 0 [], NA EL_STAR false 0 0 []).
+Definition sel_attr_hh (K : keysel) (a : xnode) : xnode :=
+  XN (pick (k_el K) (x_el a)) (pick (k_ch K) (x_ch a)) (pick (k_amap K) (x_amap a))
+     (pick (k_arom K) (x_arom a)) (pick (k_hc K) (x_hc a)) (pick (k_nb K) (x_nb a))
+     (Some (match x_gh a with Some t => t | None => HH_FALLBACK end)).
+
+(** data.get("is_mtg", False) *)
+Definition mtg_flag (x : xedge) : bool := match snd x with Some b => b | None => false end.
+(** _should_include_edge(std, is_mtg_attr, keep_mtg) *)
+Definition include_x (keep : bool) (x : xedge) : bool := changed (fst x) || (keep && mtg_flag x).
+(** _is_hh_pair on nodes whose element may be absent *)
+Definition is_h_x (g : xits) (u : N) : bool :=
+  match label g u with Some a => match x_el a with Some e => N.eqb e EL_H | None => false end | None => false end.
+Definition is_hh_x (g : xits) (u v : N) : bool := is_h_x g u && is_h_x g v.
+
+Definition has_key_x (n : N) (ns : list (N * xnode)) : bool :=
+  match assoc n ns with Some _ => true | None => false end.
+(** if not rc.has_node(n): rc.add_node(n, **f(ITS.nodes[n])) *)
+Definition ensure_x (f : xnode -> xnode) (g : xits) (n : N) (ns : list (N * xnode)) : list (N * xnode) :=
+  if has_key_x n ns then ns
+  else match label g n with Some a => ns ++ [(n, f a)] | None => ns end.
+
+Definition rcx_state := (list (N * xnode) * list (N * N * xedge))%type.
+(** the edge attributes _add_changed_bonds / _add_hh_bonds write: order, standard_order, is_mtg = data.get("is_mtg", False) *)
+Definition out_edge (x : xedge) : xedge := (fst x, Some (mtg_flag x)).
+(** the edge attributes _reconnect_rc_edges writes: order, standard_order (no is_mtg key) *)
+Definition out_edge_rec (x : xedge) : xedge := (fst x, None).
+
+Definition step_changed_x (K : keysel) (keep : bool) (g : xits) (st : rcx_state) (e : N * N * xedge) : rcx_state :=
+  let '(u, v, x) := e in
+  if include_x keep x
+  then (ensure_x (sel_attr K) g v (ensure_x (sel_attr K) g u (fst st)), snd st ++ [(u, v, out_edge x)])
+  else st.
+
+Definition step_hh_x (K : keysel) (g : xits) (st : rcx_state) (e : N * N * xedge) : rcx_state :=
+  let '(u, v, x) := e in
+  if is_hh_x g u v
+  then (ensure_x (sel_attr_hh K) g v (ensure_x (sel_attr_hh K) g u (fst st)),
+        match find_edge u v (snd st) with Some _ => snd st | None => snd st ++ [(u, v, out_edge x)] end)
+  else st.
+
+(** _add_charge_change_nodes: gh[0][3] != gh[1][3] and not rc.has_node(n) -> _carry_node_attrs *)
+Definition charge_changed (a : xnode) : bool :=
+  match x_gh a with Some (tg, th) => negb (a_ch tg =? a_ch th) | None => false end.
+Definition step_charge (K : keysel) (ns : list (N * xnode)) (p : N * xnode) : list (N * xnode) :=
+  if charge_changed (snd p) && negb (has_key_x (fst p) ns) then ns ++ [(fst p, sel_attr K (snd p))] else ns.
+
+(** _reconnect_rc_edges: rc.has_node(u) and rc.has_node(v) and not rc.has_edge(u, v) -> add_edge *)
+Definition step_reconnect (ns : list (N * xnode)) (es : list (N * N * xedge)) (e : N * N * xedge) : list (N * N * xedge) :=
+  let '(u, v, x) := e in
+  if has_key_x u ns && has_key_x v ns && match find_edge u v es with Some _ => false | None => true end
+  then es ++ [(u, v, out_edge_rec x)] else es.
+
+Definition get_rc_x (K : keysel) (disconnected keep : bool) (g : xits) : xits :=
+  let st1 := fold_left (step_changed_x K keep g) (gedges g) ([], []) in
+  let st2 := fold_left (step_hh_x K g) (gedges g) st1 in
+  if disconnected
+  then let ns3 := fold_left (step_charge K) (gnodes g) (fst st2) in
+       LG ns3 (fold_left (step_reconnect ns3) (gedges g) (snd st2))
+  else LG (fst st2) (snd st2).
+
+(** embedding of the round-1 ITS type: every label present, no is_mtg key *)
+Definition xn_of (a : inode) : xnode :=
+  XN (Some (i_el a)) (Some (i_ch a)) (Some (i_amap a))
+     (match i_extra a with Some t => Some (fst (fst t)) | None => None end)
+     (match i_extra a with Some t => Some (snd (fst t)) | None => None end)
+     (match i_extra a with Some t => Some (snd t) | None => None end)
+     (Some (i_G a, i_H a)).
+Definition gmap {A A' B B'} (fn : A -> A') (fe : B -> B') (g : lgraph A B) : lgraph A' B' :=
+  LG (map (fun p => (fst p, fn (snd p))) (gnodes g)) (map (fun e => let '(u, v, x) := e in (u, v, fe x)) (gedges g)).
+Definition emb (g : its) : xits := gmap xn_of (fun e => (e, @None bool)) g.
+(** flagged ITS: round-1 nodes, edges with the is_mtg attribute alongside *)
+Definition fits := lgraph inode xedge.
+Definition emb_f (g : fits) : xits := gmap xn_of (fun e : xedge => e) g.
+Definition strip_f (g : fits) : its := gmap (fun a : inode => a) (@fst iedge (option bool)) g.
+
+(** ** RadiusExpand helpers *)
+
+(** find_unequal_order_edges: endpoints of the edges with order[0] != order[1] and standard_order != 0
+    (isinstance(order, tuple) holds for every ITS the library builds; the result is list(set): unordered) *)
+Definition unequal (x : iedge) : bool := negb (e_G x =? e_H x) && negb (e_std x =? 0).
+Definition unequal_nodes (g : its) : list N :=
+  fold_left (fun S (e : N * N * iedge) => let '(u, v, x) := e in if unequal x then add_all [u; v] S else S) (gedges g) [].
+
+(** remove_normal_edges(graph, "standard_order"): copy without the edges whose standard_order == 0 *)
+Definition remove_normal (g : its) : its := LG (gnodes g) (filter (fun e => changed (snd e)) (gedges g)).
+
+(** longest_radius_extension(G, rc_nodes): depth-first enumeration of the simple paths that start in a centre atom and
+    use only edges with standard_order == 0; neighbours in adjacency order ([nbrs]: edge-list order, which is the
+    networkx adjacency order when the graph was built by adding the edges in list order). [fuel] bounds the depth. *)
+Definition std0 (g : its) (u v : N) : bool :=
+  match adj g u v with Some x => e_std x =? 0 | None => false end.
+Fixpoint lre_dfs (g : its) (fuel : nat) (node : N) (visited : list N) (path : list N) : list N :=
+  match fuel with
+  | O => path
+  | S f =>
+      let visited' := node :: visited in
+      fold_left (fun longest nb =>
+                   if std0 g node nb && negb (LGraph.mem nb visited')
+                   then let cur := lre_dfs g f nb visited' (path ++ [nb]) in
+                        if (length longest <? length cur)%nat then cur else longest
+                   else longest)
+                (nbrs g node) path
+  end.
+Definition lre (g : its) (rc_nodes : list N) : list N :=
+  snd (fold_left (fun (st : list N * list N) n =>
+                    let '(vis, best) := st in
+                    if LGraph.mem n vis then st
+                    else let p := lre_dfs g (S (length (gnodes g))) n vis [n] in
+                         (p ++ vis, if (length best <? length p)%nat then p else best))
+                 rc_nodes ([], [])).
+
+(** extract_k(its, n_knn) for every integer option value the code distinguishes: 0, -1, > 0 *)
+Definition extract_k_z (g : its) (k : Z) : its :=
+  if k =? 0 then get_rc g
+  else let rcn := node_ids (get_rc g) in
+       let k' := if k =? -1 then length (lre g rcn) else Z.to_nat k in
+       induced_sub g (knn g rcn k').
+
+(** context_extraction / paralle_context_extraction over a list of reaction dicts: element i of the result is
+    element i of the input with K = extract_k(ITS_i, n_knn) *)
+Definition context_list (gs : list its) (k : Z) : list (its * its) := map (fun g => (g, extract_k_z g k)) gs.
+
+(** ** ITSConstruction.ITSGraph(G, H, ignore_aromaticity, balance_its) — the two options that reach get_rc
+    (C01 owns the construction; this copy only varies the base choice and _compute_standard_order) *)
+Definition std_of (ia : bool) (oG oH : Z) : Z :=
+  if ia && (Z.abs (oG - oH) <? 2) then 0 else oG - oH.
+Definition its_construct_o (ia bal : bool) (G H : mgraph) : its :=
+  let gb := if bal then (length (gnodes G) <=? length (gnodes H))%nat else base_is_G G H in
+  let base := if gb then G else H in
+  let other := if gb then H else G in
+  let ns := gnodes base ++ filter (fun p => negb (has_node base (fst p))) (gnodes other) in
+  LG (map (fun p => (fst p, its_node G H (fst p) (g_amap (snd p)))) ns)
+     (map (fun e => let '(u, v, o) := e in (u, v, IE o (order_in H u v) (std_of ia o (order_in H u v)))) (gedges G)
+      ++ map (fun e => let '(u, v, o) := e in (u, v, IE 0 o (std_of ia 0 o))) (filter (absent_in G) (gedges H))).
+(** standard_order is the difference, except that |difference| < 1 is zeroed *)
+Definition ia_consistent (g : its) : Prop :=
+  forall u v x, In (u, v, x) (gedges g) -> e_std x = if Z.abs (e_G x - e_H x) <? 2 then 0 else e_G x - e_H x.
+
+(** ** Observables of the extensions *)
+Definition txnode (p : N * xnode) : tok :=
+  let a := snd p in
+  L [tN (fst p); topt tN (x_el a); topt tZ (x_ch a); topt tZ (x_amap a); topt tbool (x_arom a); topt tZ (x_hc a);
+     topt (tlist tN) (x_nb a); topt (fun t : nattr * nattr => L [tnattr (fst t); tnattr (snd t)]) (x_gh a)].
+Definition txedge (e : N * N * xedge) : tok :=
+  let '(u, v, x) := e in
+  L [tN (N.min u v); tN (N.max u v); tZ (e_G (fst x)); tZ (e_H (fst x)); tZ (e_std (fst x)); topt tbool (snd x)].
+Definition txits (g : xits) : tok := L [tset txnode (gnodes g); tset txedge (gedges g)].
+
+(** get_rc under one option setting, and the centre of that centre under the same setting *)
+Definition run_x (K : keysel) (disc keep : bool) (g : xits) : tok :=
+  let rc := get_rc_x K disc keep g in L [txits rc; txits (get_rc_x K disc keep rc)].
+(** all four (disconnected, keep_mtg) settings for one element_key *)
+Definition run_opts (K : keysel) (g : xits) : tok :=
+  L [run_x K false false g; run_x K false true g; run_x K true false g; run_x K true true g].
+
+(** RadiusExpand helpers on one ITS: find_unequal_order_edges, remove_normal_edges, extract_k for the given n_knn values *)
+Definition tctx (c : its) : tok := L [tset tN (node_ids c); tpairs (gedges c)].
+Definition run_helpers (g : its) (ks : list Z) : tok :=
+  L [tset tN (unequal_nodes g); tits (remove_normal g); tlist (fun k => tctx (extract_k_z g k)) ks].
+(** the same plus n_knn = -1 (only for graphs whose adjacency order is the edge-list order) *)
+Definition run_lre (g : its) : tok :=
+  let rcn := node_ids (get_rc g) in
+  L [tlist tN (lre g rcn); tctx (extract_k_z g (-1))].
+(** a list of reaction dicts through paralle_context_extraction *)
+Definition run_list (gs : list its) (k : Z) : tok :=
+  tlist (fun p : its * its => L [tits (fst p); tits (snd p)]) (context_list gs k).
+(** ITSGraph with options, then the round-1 observable *)
+Definition run_pair_o (ia bal : bool) (G H : mgraph) : tok := run (its_construct_o ia bal G H).
